@@ -94,6 +94,7 @@ func NewShared() *Shared {
 type Machine struct {
 	Sh   *Shared
 	Name string
+	Prop string
 	Tier int
 	tags map[string]int64
 	funcs map[string]bool
